@@ -774,6 +774,9 @@ func init() {
 		}
 		byName[t.Name] = t
 	}
+	for _, t := range DeepTypes {
+		byName[t.Name] = t
+	}
 }
 
 func Lookup(name string) (Entry, bool) { e, ok := byName[name]; return e, ok }
